@@ -172,6 +172,22 @@ func Load(dir string, overlay map[string][]byte) (*Program, error) {
 	sort.Slice(p.Funcs, func(i, j int) bool { return p.Funcs[i].Key() < p.Funcs[j].Key() })
 	facts.InlineHook = p.InlineBool
 	facts.NameHook = RefName
+	facts.MutatorHook = func(info *types.Info, call *ast.CallExpr) ast.Expr {
+		// convention of package common (DESIGN.md E3): methods without results mutate their receiver
+		se, ok := ast.Unparen(call.Fun).(*ast.SelectorExpr)
+		if !ok {
+			return nil
+		}
+		fn, _ := info.ObjectOf(se.Sel).(*types.Func)
+		if fn == nil || fn.Pkg() == nil || fn.Pkg().Path() != PkgCommon {
+			return nil
+		}
+		sig := fn.Type().(*types.Signature)
+		if sig.Recv() == nil || sig.Results().Len() != 0 {
+			return nil
+		}
+		return se.X
+	}
 	return p, nil
 }
 
